@@ -53,6 +53,38 @@ func TestDescribe(t *testing.T) {
 		_, _ = vt.LoadReplay(p, &s)
 		t.Logf("gated: hosts=%d likeGraph=%v Start reports [%s]; prefix [%s]; racers %s; first report of racer %d is held inside host %d's delivery; post [%s]",
 			s.NHosts, s.Auto, lettersString(s.StartReports), lettersString(s.Prefix), workersString(s.Racers), s.HeldRacer, s.HeldHost, lettersString(s.Post))
+	case "sharedcomponent-generations":
+		var g GenScript
+		_, _ = vt.LoadReplay(p, &g)
+		for i, s := range g.Gens {
+			line := ""
+			for _, op := range s.Ops {
+				switch op.Kind {
+				case opReport:
+					line += " report:" + letterName[op.Letter%nLetters]
+				case opAttach:
+					line += " attach"
+				default:
+					line += " SHUTDOWN"
+				}
+			}
+			t.Logf("generation %d: hosts=%d likeGraph=%v Start[%s] err=%v Shutdown[%s] err=%v ops:%s", i, s.NHosts, s.Auto,
+				lettersString(s.StartReports), s.StartErr, lettersString(s.ShutdownReports), s.ShutdownErr, line)
+		}
+	case "service-generations":
+		var g SvcGenScript
+		_, _ = vt.LoadReplay(p, &g)
+		for i, s := range g.Gens {
+			b := s.Comps["s"]
+			t.Logf("service generation %d: pipelines=%v shared receiver Start[%s] Shutdown[%s] err=%v; %d runtime reports", i, s.Signals,
+				lettersString(b.StartReports), lettersString(b.ShutdownReports), b.ShutdownErr, func() int {
+					n := 0
+					for _, w := range s.Runtime {
+						n += len(w)
+					}
+					return n
+				}())
+		}
 	case "service-watcher":
 		var s SvcScript
 		_, _ = vt.LoadReplay(p, &s)
